@@ -41,6 +41,21 @@ CHECKS = {
         text="verdict_exact/enlarging_T/T_as_set/reported_sorted_nodup hold for every tree and T under the generated AllCallerPlus side-condition; flow facts pin trusted=True rejection, audit-before-construct, sorted messages; the implementation is exercised with subsets/supersets/permutations/duplicates/tuples/type objects and data= vs file=.",
         note="Trusted: Lean kernel; translator; string order = code point order on both sides; deep equality of loaded results uses harness/compare.py.",
         design="6/C03"),
+    "C08": dict(
+        technique="Lean 4 proof (exact-else-current lookup = 'smallest registered protocol not below' under the gap-freeness side-condition decided on the generated registry) + exhaustive (loader, protocol value) enumeration + downgrade rewriter",
+        text="lookup_eq_spec / unchanged_kind_same / unregistered_error for every table, loader and protocol; registry_ok (by decide) on the registry and the emitted-loader list regenerated from the source; every registered loader x 13 protocol values compared between model and get_tree; zoo archives rewritten into protocol 0/1 layouts must load to the same object.",
+        note="Trusted: Lean kernel; translators (registry, emitted loaders via AST of the registered *_get_state functions); comparator. Known finding: protocol-0 Generator archives (pinned by a test).",
+        design="6/C08"),
+    "C11": dict(
+        technique="Lean 4 proof (acceptance without a trusted list implies membership in the default lists, corollary of C01; set algebra defaults ⊆ families, defaults ∩ dangerous = ∅ decided in the kernel over interned ids) + enumeration of (kind, slot, dangerous name) refusals on the implementation",
+        text="no_T_only_defaults for every tree; defaults_in_families / defaults_not_dangerous by decide +kernel on tables regenerated from the live default lists and the installed numpy/scipy/sklearn/stdlib namespaces (589 default names, ~4000 dangerous names); every registered kind is given dangerous names and must report and refuse them.",
+        note="Trusted: Lean kernel; translate/trust.py (family predicates and name resolution are evaluated by Python in the pinned environment); quick samples 25 names per kind, thorough enumerates all.",
+        design="6/C11"),
+    "C13": dict(
+        technique="Lean 4 proof (walk stream and filtered stream never jump more than one level, by mutual induction; row flags = audit of that node) + row-by-row differential correspondence + totality runs over dumps",
+        text="walk_wellformed / traverse_wellformed for every tree, trusted list and show mode; unsafe_marked / safe_iff_audit_empty tie each row to the audit; NodeInfo streams of the real visualize are compared with the model on generated archives and the property's sentences are evaluated on them; every zoo dump x trusted x show x colours must complete.",
+        note="Trusted: Lean kernel; translator view facts (format / is_self_safe / is_safe / SKIPPED_TYPES / ListNode per loader); cyclic trees are only checked against the sentences (per-node audit of a cyclic graph differs from the unfolded tree); is_last not compared.",
+        design="6/C13"),
 }
 
 PENDING_REASON = "not claimed yet: the model/check for this property is still being built in this round (see DESIGN.md section 11); it is not 'not applicable' in principle"
